@@ -3,8 +3,8 @@
 package main
 
 import (
-	"github.com/whoisnian/glb/zzverif/vsched"
 	"verif/engine/conformance/progs"
+	"verif/engine/shim/vsched"
 )
 
 func collect(int) map[string]map[string]int {
